@@ -28,7 +28,7 @@ fn magic_ty(tr8: &str, m: &str, flavor: &str) -> String {
         (_, "generics") => match flavor {
             "gen_ast" => "darling::ast::Generics<darling::ast::GenericParam<T15>>".into(),
             "gen_orig" => "darling::util::WithOriginal<darling::ast::Generics<darling::ast::GenericParam<T15>>, syn::Generics>".into(),
-            "gen_result" => "darling::Result<syn::Generics>".into(),
+            "gen_result" => "darling::Result<darling::ast::Generics<darling::ast::GenericParam<T15>>>".into(),
             _ => "syn::Generics".into(),
         },
         (_, "data") => match flavor {
